@@ -25,6 +25,7 @@ import Golib.Proof.C09Dec
 import Golib.Proof.C09Arena
 import Golib.Proof.C08AesInv
 import Golib.Proof.C08GcmInv
+import Golib.Proof.C08GcmSpec
 import Golib.Model.C09
 import Golib.Gen.FactsC09
 
@@ -359,6 +360,23 @@ theorem c09_inputs_unchanged_concrete (s0 s1 : Bytes) (n : Nat) (m : Mem) (ct ad
   obtain ⟨h1, _, _, _, h5, _, _, _, h9, _, _, _⟩ := c09_instance_meets_hypotheses s0 s1 n
   have := c09_inputs_unchanged (primsFor s0 s1 n) h1 h5 h9
   exact ⟨this.2.1 m ct secret h, this.2.2 m ct ad secret h⟩
+
+/-- The counter of the stream mode is a 128-bit big-endian counter: block `i` of the keystream
+is `AES_key(iv + i mod 2^128)` with the addition carrying across ALL sixteen bytes
+(`cipher.NewCTR`), not only the last four (that is GCM's `inc32`) — so the keystream of
+`EncryptStreamTo` and of `DecryptStreamTo` agree also when the derived IV's last word wraps
+inside the stream.  The tie exercises exactly this with salts found offline whose derived IV
+is a few blocks below such a wrap (`adversarial` stream), and the model's keystream is compared
+with crypto/cipher's on IVs about to wrap their last 4 / 8 / 12 / 16 bytes (`ctr` op). -/
+theorem c09_ctr_counter_is_128bit (key iv : Bytes) (i n : Nat) :
+    C08.GCM.toNatBE (Enc.ctrBlock iv i) = (C08.GCM.toNatBE iv + i) % 2 ^ 128 ∧
+    (Enc.ctrBlock iv i).length = 16 ∧
+    Enc.aesCtrStream key iv n =
+      ((List.range ((n + 15) / 16)).flatMap fun j => C08.AES.encryptBlock key (Enc.ctrBlock iv j)).take n ∧
+    -- the carry leaves the last four bytes: iv = …‖ffffffff, one block later the 12 leading bytes changed
+    Enc.ctrBlock ([0,0,0,0,0,0,0,0,0,0,0,7] ++ [255,255,255,255]) 1 = [0,0,0,0,0,0,0,0,0,0,0,8] ++ [0,0,0,0] ∧
+    Enc.ctrBlock (List.replicate 16 255) 1 = List.replicate 16 0 :=
+  ⟨(ctrBlock_is_be128 iv i).1, (ctrBlock_is_be128 iv i).2, rfl, by decide +kernel, by decide +kernel⟩
 
 /-- The facts the model hard-codes, against `Golib/Gen/FactsC09.lean`, which the go/ast
 extractor regenerates from `cryptz/crypt.go` on every run — above all WHICH call fills the
